@@ -6,6 +6,7 @@ import ast
 import hashlib
 import json
 import os
+import re
 import time
 from dataclasses import asdict, dataclass, field
 from typing import Callable, Iterable, Optional
@@ -231,8 +232,17 @@ def moved_lookup(table: dict, func_short: str, text: str, live_funcs: set[str]):
     text inside the same module (the code moved with its justification)"""
     if (func_short, text) in table:
         return table[(func_short, text)]
+    # locals of a helper that was copied into its call site carry the suffix __i<n>
+    plain = re.sub(r"__i\d+\b", "", text)
+    if plain != text and (func_short, plain) in table:
+        return table[(func_short, plain)]
+    from .rules import util as _util
+
+    new_funcs = {q.removeprefix("ngo.") for q in getattr(_util, "_NEW_FUNCS", set())}
     for (efunc, etext), reason in table.items():
-        if etext == text and efunc not in live_funcs and efunc.split(":")[0] == func_short.split(":")[0]:
+        if etext in (text, plain) and efunc.split(":")[0] == func_short.split(":")[0] and (efunc not in live_funcs or func_short in new_funcs):
+            # the function the entry names is gone, or the code sits in a helper the reference tree does not have
+            # (extracted from that function): the justification moved with the code
             return reason
     return None
 
